@@ -525,6 +525,48 @@ func genMul(r *hx.RNG, l hx.Limits) *opCase {
 			k.y.Coef = new(big.Int).Sub(oracle.Pow10(int64(n2)), big.NewInt(1))
 		}
 		k.class = "range-end"
+	case shape < 62: // the product lies right next to a rounding-aimed value T: x*y = T x 10^s -+ (less than x), with long
+		// operands (y, or x = y, comes from a division, a square root): which side of T - a boundary, a tie - the product is
+		// on is decided by the lowest words of both operands
+		pp := int(minI64(r.Prec(0, l), 300))
+		k.p = int64(pp)
+		T := hx.CoefOf(r.RoundAimed(pp))
+		dT := int(oracle.Digits(T))
+		n1 := r.Range(20, 400)
+		if r.Chance(25) {
+			n1 = r.Range(400, 1500)
+		}
+		if r.Chance(30) {
+			sh := 2*n1 - dT
+			if sh < 0 {
+				sh = 0
+			}
+			xc := new(big.Int).Sqrt(new(big.Int).Mul(T, oracle.Pow10(int64(sh))))
+			if r.Bool() {
+				xc.Add(xc, big.NewInt(1))
+			}
+			k.x = oracle.Val{Form: oracle.Finite, Neg: r.Bool(), Coef: xc, Exp: int64(r.Range(-60, 60)) - oracle.Digits(xc)}
+			k.y = k.x
+			k.sameXY = true
+			k.class = "square-next-to-aimed"
+		} else {
+			xc := hx.CoefOf(r.Digits(n1))
+			n2 := r.Range(20, n1+20)
+			sh := n1 + n2 - dT
+			if sh < 0 {
+				sh = 0
+			}
+			yc := new(big.Int).Quo(new(big.Int).Mul(T, oracle.Pow10(int64(sh))), xc)
+			if r.Bool() || yc.Sign() == 0 {
+				yc.Add(yc, big.NewInt(1))
+			}
+			k.x = oracle.Val{Form: oracle.Finite, Neg: r.Bool(), Coef: xc, Exp: int64(r.Range(-60, 60)) - oracle.Digits(xc)}
+			k.y = oracle.Val{Form: oracle.Finite, Neg: r.Bool(), Coef: yc, Exp: int64(r.Range(-60, 60)) - oracle.Digits(yc)}
+			if r.Bool() {
+				k.x, k.y = k.y, k.x
+			}
+			k.class = "product-next-to-aimed"
+		}
 	default:
 		n1, n2 := r.Len(l), r.Len(l)
 		k.p = pickPrec(r, n1+n2, l, true)
@@ -677,6 +719,15 @@ func genFMA(r *hx.RNG, l hx.Limits) *opCase {
 		off := int64(r.Range(-(p + 3), p+3))
 		k.u = r.Finite(n3, ple+off)
 		k.class = "u-near"
+		if r.Chance(20) {
+			// a power of ten (or one digit) of the opposite sign: the subtraction borrows out of the leading digit, the sum
+			// drops a decade and every digit position moves up by one
+			k.u = oracle.Val{Form: oracle.Finite, Neg: !pneg, Coef: big.NewInt(int64([]int{1, 1, 1, r.Range(1, 9)}[r.Intn(4)])), Exp: ple + int64(r.Range(p-2, p+3))}
+			if r.Chance(15) {
+				k.u.Neg = pneg
+			}
+			k.class = "u-power-of-ten-above"
+		}
 	case shape < 42: // u far below / far above: only a sticky contribution
 		n3 := r.Range(1, 60)
 		gap := int64(r.Range(p+2, p+2+minInt(l.MaxGap, 3000)))
@@ -811,6 +862,19 @@ func genFMA(r *hx.RNG, l hx.Limits) *opCase {
 		k.u = r.Finite(r.Range(1, 40), ule)
 		k.p = int64(r.Range(1, 60))
 		k.class = "range-end"
+		if r.Chance(30) {
+			// a zero addend of either sign: the sum is the product, which may leave the range (an inexact zero keeps the
+			// product's sign, whatever the sign of the zero that was added)
+			k.u = oracle.Val{Form: oracle.Zero, Neg: r.Bool()}
+			k.class = "range-end-zero-addend"
+			if r.Bool() { // far outside the range, not only next to its ends
+				x = r.Finite(n1, int64(r.Range(-2147483000, -1000000000)))
+				y = r.Finite(n2, int64(r.Range(-2147483000, -1000000000)))
+				if r.Bool() {
+					x.Exp, y.Exp = -x.Exp, -y.Exp
+				}
+			}
+		}
 	}
 	k.x, k.y = x, y
 	k.hugeOK = true
